@@ -5,6 +5,7 @@ go 1.23.12
 require (
 	github.com/prometheus/client_golang v1.23.0
 	github.com/saucelabs/forwarder v0.0.0
+	golang.org/x/time v0.12.0
 )
 
 require (
@@ -35,7 +36,6 @@ require (
 	golang.org/x/sync v0.16.0 // indirect
 	golang.org/x/sys v0.34.0 // indirect
 	golang.org/x/text v0.27.0 // indirect
-	golang.org/x/time v0.12.0 // indirect
 	google.golang.org/protobuf v1.36.6 // indirect
 )
 
